@@ -1,0 +1,14 @@
+//! Read-only observation hooks for external verification tooling (trainer side).
+//!
+//! Compiled only with the cargo feature `verif-hooks`.
+
+use super::feature_rewriter::{FeatureRewriter, FeatureRewriterBuilder};
+
+/// Builds a rewriter from `(pattern, rewrite)` rules in order and rewrites `features`.
+pub fn rewrite(rules: &[(Vec<String>, Vec<String>)], features: &[String]) -> Option<Vec<String>> {
+    let mut b = FeatureRewriterBuilder::new();
+    for (p, w) in rules {
+        b.add_rule(p, w);
+    }
+    FeatureRewriter::from(b).rewrite(features)
+}
